@@ -347,6 +347,13 @@ class OrderedMultiDict(dict, MutableMappingSequence):
     def copy(self):
         return type(self)(self)
 
+    def __reduce__(self):
+        # The copy and pickle modules would otherwise treat this as a plain
+        # dict subclass: rebuild it from the dict part (a key to value-list
+        # mapping) and share or drop the private item list.  Rebuild from
+        # the ordered list of pairs instead.
+        return (type(self), (list(self),))
+
     def insert(self, index: int, *args) -> None:
         """Inserts at the index given by *index*.
 
